@@ -12,7 +12,7 @@ from hypothesis import strategies as st
 from vf import harness
 from vf.ceosgen import product
 from vf.props import c07, common
-from vf.runner import SetupViolation, heartbeat
+from vf.runner import SetupViolation, heartbeat, touch
 
 ID = "C10"
 LEVEL = "exploration"
@@ -21,7 +21,7 @@ RULE = (
     "options dict plain / with nested storage_options / absent), cli-create(adjacent | user dir, "
     "rpc), open with create_cache=True while the user cache dir cannot be created (allowed to fail with OSError, not to write elsewhere), open of the same product on memory:// or vtrace:// (uncached, or with index files shipped next to its images; with / without storage_options), delete local cache, delete adjacent cache, tear (truncate) the index files of one location, reload an earlier returned tree}. Quick: a "
     "Hypothesis RuleBasedStateMachine (120 machines x <= 12 steps) plus all histories of length "
-    "<= 2 over a 16-operation alphabet and all 96 'produce a cache, disturb it, open' triples; thorough: breadth-first enumeration of ALL histories up "
+    "<= 2 over a 16-operation alphabet and all 96 'produce a cache, disturb it, open' triples, plus 12 short histories in which a step (an open with / without cache use or creation) is carried out by another process whose preferred text encoding is not UTF-8 (C locale) - caches written there are used here and the other way round; thorough: breadth-first enumeration of ALL histories up "
     "to length 4 over that alphabet (69904 per product) for a level-1.1 ScanSAR-like product (image files differ only in the scan suffix) and a level-1.5 product. "
     "Invariants after every step: the returned tree equals the uncached reference for this "
     "step's rpc; the product directory (listing + sha256) is unchanged except index files made "
@@ -67,8 +67,8 @@ def reference(level, rpc_tag):
         opts = {"use_cache": False}
         if rpc_value(rpc_tag) is not None:
             opts["records_per_chunk"] = rpc_value(rpc_tag)
-        flat = harness.flatten(harness.open_tree(prod.url, **opts))
-        harness.open_tree(prod.url, use_cache=False, create_cache=True)
+        _, flat = harness.reference_open(prod.url, **opts)
+        harness.reference_open(prod.url, "reference open with create_cache=True", use_cache=False, create_cache=True)
         docs = {}
         for image in images:
             p = c07.user_index_path(prod.url, image)
@@ -251,6 +251,26 @@ class World:
                 else:
                     out.extend(dict(d, where=f"history step: {d['where']}") for d in harness.diff_flat(ref, flat, kind="history-differs")[:4])
                     self.returned.append((tree, tag))
+        elif kind == "open_elsewhere":
+            # the same open performed by ANOTHER process whose preferred text encoding is not UTF-8
+            # (C locale, UTF-8 mode off) - the environment of a cron job or a batch node.  Caches
+            # written there are read here afterwards and the other way round.
+            use_cache = op.get("use_cache", True)
+            create = op.get("create_cache", False)
+            flat, err = elsewhere_open(self.url, {"use_cache": use_cache, "create_cache": create})
+            if create:
+                for image in self.images:
+                    intact_local = image in self.local and image not in self.torn_local
+                    intact_adjacent = image in self.adjacent and image not in self.torn_adjacent
+                    served_by_cache = use_cache and (intact_local or (image not in self.local and intact_adjacent))
+                    if not served_by_cache:
+                        self.local.add(image)
+                        self.torn_local.pop(image, None)
+            if err is not None:
+                out.append(harness.disc("exception", what, "a tree", err))
+            else:
+                ref, _ = reference(self.level, "default")
+                out.extend(dict(d, where=f"history step: {d['where']}") for d in harness.diff_flat(ref, flat, kind="history-differs")[:4])
         elif kind == "open_remote":
             # the same product on a non-local filesystem, never cached: the trees must be the same,
             # the caller's dicts untouched and nothing may be remembered for later (local) opens
@@ -377,6 +397,59 @@ class World:
         return out
 
 
+ELSEWHERE_SCRIPT = """
+import pickle, sys
+from vf import harness
+url, opts, out = sys.argv[1], eval(sys.argv[2]), sys.argv[3]
+tree, err = harness.guard(harness.open_tree, url, **opts)
+flat = None
+if err is None:
+    flat, err = harness.guard(harness.flatten, tree)
+with open(out, "wb") as f:
+    pickle.dump((flat, None if err is None else harness.exc_text(err)), f)
+"""
+
+
+def elsewhere_open(url, opts):
+    import os
+    import pickle
+    import subprocess
+    import sys
+    import tempfile
+
+    env = dict(os.environ, LC_ALL="C", LANG="C", PYTHONUTF8="0", PYTHONCOERCECLOCALE="0")
+    env.pop("PYTHONIOENCODING", None)
+    fd, name = tempfile.mkstemp(prefix="vfelsewhere-", dir=harness.scratch_root())
+    os.close(fd)
+    try:
+        touch()
+        r = subprocess.run([sys.executable, "-c", ELSEWHERE_SCRIPT, url, repr(opts), name], capture_output=True, text=True, env=env, timeout=100)
+        touch()
+        if r.returncode != 0 or os.path.getsize(name) == 0:
+            raise RuntimeError(f"open_elsewhere subprocess failed: {r.stderr[-400:]}")
+        with open(name, "rb") as f:
+            return pickle.load(f)
+    finally:
+        os.unlink(name)
+
+
+def elsewhere_cases():
+    """short histories in which one step runs in a process with a non-UTF-8 preferred encoding"""
+    here = lambda **kw: dict({"op": "open"}, **kw)  # noqa: E731
+    there = lambda **kw: dict({"op": "open_elsewhere"}, **kw)  # noqa: E731
+    histories = [
+        [there(use_cache=False, create_cache=True), here(use_cache=True)],
+        [here(use_cache=False, create_cache=True), there(use_cache=True)],
+        [there(use_cache=True, create_cache=True), there(use_cache=True), here(opts="absent")],
+        [{"op": "cli", "target": "adjacent"}, there(use_cache=True)],
+        [{"op": "cli", "target": "user"}, {"op": "tear", "where": "user"}, there(use_cache=True, create_cache=True), here(use_cache=True)],
+        [there(use_cache=True)],
+    ]
+    for level in LEVELS:
+        for ops in histories:
+            yield {"level": level, "ops": ops}
+
+
 def run_case(case):
     world = World(case["level"])
     out = []
@@ -488,6 +561,7 @@ def plan(tier):
     q = tier == "quick"
     return [
         {"kind": "enum", "name": "bfs-histories", "cases": lambda: bfs_cases(2 if q else 4), "exhaustive": True},
+        {"kind": "enum", "name": "other-environment-steps", "cases": elsewhere_cases, "exhaustive": False},
         {"kind": "machine", "name": "stateful-machine", "machine": make_machine, "examples": 120 if q else 3000, "steps": 12},
     ]
 
@@ -497,9 +571,9 @@ def classify(case):
     nontrivial = False
     labels = {f"len={min(len(case['ops']), 6)}{'+' if len(case['ops']) > 6 else ''}", f"level={case['level']}"}
     for op in case["ops"]:
-        if op["op"] == "open" and producing:
+        if op["op"] in ("open", "open_elsewhere") and producing:
             nontrivial = True
-        if (op["op"] == "open" and op.get("create_cache")) or op["op"] == "cli":
+        if (op["op"] in ("open", "open_elsewhere") and op.get("create_cache")) or op["op"] == "cli":
             producing = True
         labels.add(f"op={op['op']}")
     return nontrivial, sorted(labels)
